@@ -115,3 +115,101 @@ def array_case(rng, n):
             p = {"random": 0.5, "sparse": 0.9, "dense": 0.1}[mode]
             vs.append(None if rng.random() < p else val())
     return {"k": "arr", "a": rng.choice(bounds + [rng.randint(*I32)]), "v": vs}, mode
+
+
+# ---- histories: one message object observed and modified step by step -------------
+
+def gen_history(mj, rng, n_steps):
+    """Updates (JSON form of the Lean `Upd`) valid for a message that starts as `mj`; observations
+    (`bytes`/`len`) are interleaved so that a later serialisation follows an earlier one."""
+    us = []
+    if rng.random() < 0.8:
+        us.append({"u": "obs"})
+    if mj["k"] == "fixed":
+        _, _, lv, _ = tables()["layouts"][mj["c"]]
+        ks = [k for k, (path, _, _, _) in enumerate(lv) if path != ("type",)]
+        for _ in range(n_steps):
+            if ks and rng.random() < 0.75:
+                k = rng.choice(ks)
+                _, _, w, s = lv[k]
+                us.append({"u": "leaf", "k": k, "v": rng.choice(field_values(w, s, rng, 2))})
+            else:
+                us.append({"u": "obs"})
+        return us
+    if mj["k"] == "sub":
+        for _ in range(n_steps):
+            if rng.random() < 0.7:
+                us.append({"u": "bytes", "b": [rng.randrange(256) for _ in range(rng.randrange(20))]})
+            else:
+                us.append({"u": "obs"})
+        return us
+    n = len(mj["v"])
+
+    def val():
+        return None if rng.random() < 0.35 else rng.choice([0, 1, -1, I32[0], I32[1], rng.randint(*I32)])
+    for _ in range(n_steps):
+        kind = rng.choice(["obs", "item", "item", "append", "append", "pop", "insert", "del", "addr", "values"])
+        if kind == "item" and n:
+            us.append({"u": "item", "i": rng.randrange(n), "v": val()})
+        elif kind == "append":
+            us.append({"u": "append", "v": val()})
+            n += 1
+        elif kind == "pop" and n:
+            us.append({"u": "pop"})
+            n -= 1
+        elif kind == "insert":
+            us.append({"u": "insert", "i": rng.randrange(n + 1), "v": val()})
+            n += 1
+        elif kind == "del" and n:
+            us.append({"u": "del", "i": rng.randrange(n)})
+            n -= 1
+        elif kind == "addr":
+            us.append({"u": "addr", "a": rng.choice([0, 1, -1, I32[0], I32[1], rng.randint(*I32)])})
+        elif kind == "values":
+            vs = [val() for _ in range(rng.randrange(6))]
+            us.append({"u": "values", "v": vs})
+            n = len(vs)
+        else:
+            us.append({"u": "obs"})
+    return us
+
+
+def apply_real(obj, mj, u, k):
+    """one update on the real object; observations alternate between len() and bytes()"""
+    kind = u["u"]
+    if kind == "obs":
+        return len(obj) if k % 2 == 0 else bytes(obj)
+    if kind == "leaf":
+        _, _, lv, _ = tables()["layouts"][mj["c"]]
+        T.set_leaf(obj, lv[u["k"]][0], u["v"])
+    elif kind == "bytes":
+        obj.subroutine = bytes(u["b"])
+    elif kind == "addr":
+        obj.address = u["a"]
+    elif kind == "values":
+        obj.values = list(u["v"])
+    elif kind == "item":
+        obj.values[u["i"]] = u["v"]
+    elif kind == "append":
+        obj.values.append(u["v"])
+    elif kind == "pop":
+        obj.values.pop()
+    elif kind == "insert":
+        obj.values.insert(u["i"], u["v"])
+    elif kind == "del":
+        del obj.values[u["i"]]
+    else:
+        raise ValueError(kind)
+
+
+def own_bytes_ok(direction, obj):
+    """model-free oracle at one moment: the object's bytes deserialise to its current field values
+    and len(obj) is the length of these bytes. Returns None if fine, else a description."""
+    cur = msg_to_json(obj)
+    rb = list(bytes(obj))
+    rd = real_deserialize(direction, rb)
+    if rd != {"m": cur}:
+        return {"current_fields": cur, "deserialised": rd, "bytes": rb[:120]}
+    if len(obj) != len(rb):
+        return {"current_fields": cur, "len": len(obj), "len_bytes": len(rb)}
+    return None
